@@ -958,52 +958,79 @@ theorem C18_badheld_signature_exact (kind opName : String) (o : Obj) (r : Res)
 /-- the witness chain of A2: level 0 awaits level 1 inside `try: .. except E: pass` (swallow), level 1 raises -/
 def rejectWitness : List Level := [⟨.yld, .swallow, none, false⟩, ⟨.yld, .pass, some 0, false⟩]
 
-/-- **A2, counterexample in the model of the code as it is**: for an exception class that rejects attribute assignment
-    the awaiter's handler never runs and the caller catches the assignment's error (token 997) instead of getting the
-    value - the reference (and the model for every ordinary class) says: level 0 reports from its handler and the call
-    returns.  The observer rejects the run with the recorded signature. -/
-theorem C18_reject_counterexample :
-    rejectDomain .none rejectWitness = true ∧
-    refTop .none rejectWitness =
-      [.stack .start 0 [0], .stack .start 1 [0, 1], .stack .handler 0 [0], .result none] ∧
-    runTopC .accepts .own .none rejectWitness = refTop .none rejectWitness ∧
-    runTopC .rejects .own .none rejectWitness =
-      [.stack .start 0 [0], .stack .start 1 [0, 1], .result (some (rejectTok, [.caller], [.caller], []))] ∧
-    glueSpec .none rejectWitness (runTopC .rejects .own .none rejectWitness) = false ∧
-    rejectClause .none rejectWitness (runTopC .rejects .own .none rejectWitness) =
-      "exception-rejecting-attributes-not-delivered" := by
+/-- three levels that let the exception of the innermost one (raised through one helper) pass -/
+def rejectWitness3 : List Level := [⟨.yld, .pass, none, false⟩, ⟨.yld, .pass, none, false⟩, ⟨.yld, .pass, some 1, false⟩]
+
+/-- **A2 after the repair b55deef** (the former counterexample, delivery part): in the model of the repaired code the
+    chain whose exception class rejects attribute assignment DELIVERS - on `rejectWitness` the whole observation is the
+    reference one (level 0 reports from its handler, the call returns) and the observer accepts it; across three levels
+    THAT exception (token 21 = the reference's) reaches the caller after every level reported; the observation of the
+    code before the repair is rejected under its old name, a foreign frame under its own. -/
+theorem C18_reject_repaired :
+    runTopC .rejects .own .none rejectWitness = refTop .none rejectWitness ∧
+    rejectClause .own .none rejectWitness (runTopC .rejects .own .none rejectWitness) = "ok" ∧
+    (ref .none 0 rejectWitness3).map (·.1) = some 21 ∧
+    runTopC .rejects .own .none rejectWitness3 =
+      [.stack .start 0 [0], .stack .start 1 [0, 1], .stack .start 2 [0, 1, 2],
+       .result (some (21, [.caller, .task 0], [.caller, .task 0], []))] ∧
+    rejectClause .own .none rejectWitness
+      [.stack .start 0 [0], .stack .start 1 [0, 1], .result (some (rejectTok, [.caller], [.caller], []))] =
+      "exception-rejecting-attributes-not-delivered" ∧
+    rejectClause .own .none rejectWitness3
+      [.stack .start 0 [0], .stack .start 1 [0, 1], .stack .start 2 [0, 1, 2],
+       .result (some (21, [.caller, .task 0, .task 7], [.caller, .task 0, .task 7], []))] = "glued-traceback-foreign-frames" := by
+  decide
+
+/-- **residual open finding, counterexample in the model of the code as it is (b55deef)**: an exception whose class
+    rejects attribute assignment crosses three levels awaited by yield and reaches the caller with the frames
+    `[caller, task 0]` only - the reference (and the model for every ordinary class) demands
+    `[caller, task 0, task 1, task 2, helper]`, ending at the raising frame; `format_error` names no frame.  The observer
+    rejects it with the recorded name; the same frames with one reference frame more than the model predicts (a
+    different truncation) are NOT given that name, nor is an incomplete traceback on an ordinary class. -/
+theorem C18_reject_traceback_counterexample :
+    refTop .none rejectWitness3 =
+      [.stack .start 0 [0], .stack .start 1 [0, 1], .stack .start 2 [0, 1, 2],
+       .result (some (21, [.caller, .task 0, .task 1, .task 2, .helper 2 1],
+         [.caller, .task 0, .task 1, .task 2, .helper 2 1], [.task 0, .task 1, .task 2, .helper 2 1]))] ∧
+    runTopC .accepts .own .none rejectWitness3 = refTop .none rejectWitness3 ∧
+    runTopC .rejects .own .none rejectWitness3 ≠ refTop .none rejectWitness3 ∧
+    rejectClause .own .none rejectWitness3 (runTopC .rejects .own .none rejectWitness3) =
+      "exception-rejecting-attributes-traceback-incomplete" ∧
+    rejectClause .own .none rejectWitness3
+      [.stack .start 0 [0], .stack .start 1 [0, 1], .stack .start 2 [0, 1, 2],
+       .result (some (21, [.caller, .task 0, .task 2], [.caller, .task 0, .task 2], []))] = "glued-traceback" ∧
+    glueClause .none rejectWitness3 (runTopC .rejects .own .none rejectWitness3) = "glued-traceback" := by
   decide
 
 /-- the glue statement with the exception class made explicit: for every class that ACCEPTS attribute assignment the
-    whole observation is the reference one (hypothesis needed: `C18_reject_counterexample`) -/
+    whole observation is the reference one (hypothesis needed: `C18_reject_traceback_counterexample`) -/
 theorem C18_glue_refines_class_partial (cls : ExcClass) (rule : FrameRule) (bottom : Bottom) (levels : List Level)
     (hcls : cls = .accepts) (hsafe : rule = .own ∨ stackSafe bottom 0 levels = true) :
     runTopC cls rule bottom levels = refTop bottom levels := by
   subst hcls
   exact C18_glue_refines_partial rule bottom levels hsafe
 
-/-- the recorded name is given only to the observation the model of the code predicts, and only when that
-    observation is not the reference one -/
-theorem C18_reject_signature_exact (bottom : Bottom) (levels : List Level) (events : List Event)
-    (h : rejectClause bottom levels events = "exception-rejecting-attributes-not-delivered") :
-    events = rejectTop bottom levels ∧ events ≠ refTop bottom levels := by
-  unfold rejectClause at h
-  split at h
-  · exact absurd h (by decide)
-  · rename_i hc
+/-- the name of the behaviour before the repair is given exactly to event lists in which the caller caught the error
+    of the rejected assignment (token `rejectTok`) -/
+theorem C18_reject_signature_exact (rule : FrameRule) (bottom : Bottom) (levels : List Level) (events : List Event) :
+    rejectClause rule bottom levels events = "exception-rejecting-attributes-not-delivered" ↔
+      events.any Event.isRejected = true := by
+  unfold rejectClause
+  constructor
+  · intro h
     split at h
-    · rename_i he
-      exact ⟨by simpa using he, fun heq => hc (by simp [heq])⟩
+    · assumption
     · exfalso
       simp only at h
       split at h
       · exact absurd h (by decide)
       · rename_i hne
         exact hne (by simp [h])
+  · intro h
+    simp [h]
 
-/-- a chain of rejecting exceptions in which no exception ever leaves a generator (everything is swallowed at the
-    innermost level, or nothing is raised) behaves like every other chain -/
-example : rejectTop .errFuture [⟨.yld, .pass, none, true⟩, ⟨.yld, .swallow, none, false⟩] =
+/-- a chain of rejecting exceptions in which no exception ever crosses a level behaves like every other chain -/
+example : rejectTop .own .errFuture [⟨.yld, .pass, none, true⟩, ⟨.yld, .swallow, none, false⟩] =
     refTop .errFuture [⟨.yld, .pass, none, true⟩, ⟨.yld, .swallow, none, false⟩] := by decide
 
 end AsynqModel.Debug
